@@ -168,6 +168,12 @@ def gen_cases(rng, tier):
         yield mixed_poll_case(rng)
     for _ in range(6 if tier == "quick" else 60):
         yield abandoned_read_case(rng)
+    # the transport's poll_flush fails under a handler that carries on reading with its writers alive: the management query behind the
+    # first stdin record must still be answered and the task must end (harness-side assertions of the flush_fault mode)
+    from fvgen import case
+    for variant in (2, 4):
+        for fail_at in (1, 2, 3):
+            yield case("flush_fault", [variant, fail_at]), ["flush-fault-then-read", "query"]
 
 
 def nontrivial(line, tags):
@@ -175,11 +181,13 @@ def nontrivial(line, tags):
 
 
 def min_classes(tier):
-    return {"before-first": 150, "after-params": 150, "mid-stream": 150, "same-segment-as-end": 150, "between": 100, "inside-params-glued": 100, "concurrent-writers": 150, "abandoned-read-then-write": 6, "mixed-poll": 400}
+    return {"before-first": 150, "after-params": 150, "mid-stream": 150, "same-segment-as-end": 150, "between": 100, "inside-params-glued": 100, "concurrent-writers": 150, "abandoned-read-then-write": 6, "mixed-poll": 400, "flush-fault-then-read": 6}
 
 
 def signature(line, impl_line):
     """classifies a deadlock by where the task waits: used for known-finding matching"""
+    if line.startswith("flush_fault "):
+        return ""
     o = parse_out(impl_line)
     if o is None or o[0][0] != 1:
         return ""
@@ -196,6 +204,9 @@ def signature(line, impl_line):
 
 
 def oracle(line, impl_line):
+    if line.startswith("flush_fault "):
+        return True if impl_line.strip() == "1" else ("after a failed transport flush the handler went on reading, but the management reply was never "
+                                                      "sent or the connection task hangs on the output lock")
     if line.startswith("writers "):
         v = C10.oracle(line, impl_line)
         return ("a participant of the handler (a writer, or the request's read side owing a management reply) stayed suspended with nobody "
